@@ -641,13 +641,15 @@ def internal? (s : St) : Option Ev :=
   if isDone s.closing then none
   -- a parked consumer woken by the producer's `put` runs before anything the producer started afterwards ...
   else if s.readQ ≠ [] ∧ idle s > 0 ∧ ¬ (s.producers > 0 ∧ s.pphase = .starting) then some .take
+  -- the `update_frame_versions` task a consumer has just started (`dispatch_nowait`) runs in the next iteration of the
+  -- loop: before a loss handler that became runnable in the same instant gets as far as re-establishing anything
+  else if s.devices.any (fun d => !d.vpend.isEmpty) then some .versionsGo
   else if s.lostPending then some .lostRun
   else if joinReady s then some .shutdownRun
   else if s.lostMid then some .lostRun2
   else if s.producers > 0 ∧ s.pphase = .starting then some .prodStart
   -- ... but consumers started by `connection_established` run after the producer created just before them
   else if s.readQ ≠ [] ∧ idle s > 0 then some .take
-  else if s.devices.any (fun d => !d.vpend.isEmpty) then some .versionsGo
   else if s.devices.any (fun d => d.setup == .armed) then some .setupGo
   else none
 
@@ -756,5 +758,24 @@ def deviceTasks (s : St) : Nat := setupTasks s + reqTasks s + devOwnTasks s + su
 
 /-- every task created by the protocol, the connection, a device or a sub-device -/
 def tasks (s : St) : Nat := s.producers + s.consumers + lostTasks s + connTasks s + deviceTasks s
+
+/-! ### the live tasks by coroutine name -/
+
+/-- children of `asyncio.gather(read.join(), write.join())` in `Queues.join` that have not finished -/
+def joinTasks (s : St) : Nat :=
+  (match s.closing with | .joining _ => 1 | _ => 0) + (if isJoining s.closing && !s.rj then 1 else 0)
+
+/-- every live task the library created, by the name of its coroutine function: the prediction the harness
+compares `asyncio.all_tasks()` with at every quiescent point (a task of one kind cannot stand in for a
+missing task of another kind) -/
+def taskNames (s : St) : List (String × Nat) :=
+  [("_reconnect", (if reconProtoTasks s.recon = 2 then 1 else 0) + connTasks s),
+   ("async_setup", setupTasks s),
+   ("connection_lost", (if s.lostPending then 1 else 0) + (if s.lostMid then 1 else 0) + (if reconProtoTasks s.recon = 0 then 0 else 1)),
+   ("frame_consumer", s.consumers),
+   ("frame_producer", s.producers),
+   ("join", joinTasks s),
+   ("request", reqTasks s),
+   ("set", devOwnTasks s + subOwnTasks s)]
 
 end PlumVerif.Conn
